@@ -132,3 +132,33 @@ def hsession_cases(files, count, seed):
         out.append(dict(id="hsess-%d-%d" % (seed, len(out)), mem=[], al=0, calls=calls,
                         desc=dict(area="hsession", slots=[c["slot"] for c in seq], seed=seed)))
     return out
+
+
+def perm_cases(files, count, seed):
+    """'programs' quantifier of C01 / C09: the same calls in a different order. The first call (load) stays first; calls that
+    use an iterator keep their relative order; the pure calls (getters, accessors, strings, Debug) are shuffled and the two
+    groups interleaved at random. The specification predicts order-independent results; TLC judges every event."""
+    rng = random.Random(seed)
+    base = []
+    for f in files:
+        for line in open(f):
+            c = json.loads(line)
+            if len(c["calls"]) >= 4 and c["calls"][0].get("op") in ("load", "hload"):
+                base.append(c)
+    out = []
+    while len(out) < count:
+        c = rng.choice(base)
+        first, rest = c["calls"][0], c["calls"][1:]
+        iters = [x for x in rest if "it" in x]
+        pure = [x for x in rest if "it" not in x]
+        rng.shuffle(pure)
+        merged, i, j = [], 0, 0
+        while i < len(iters) or j < len(pure):
+            if j >= len(pure) or (i < len(iters) and rng.random() < len(iters) / (len(iters) + len(pure) + 0.0)):
+                merged.append(iters[i]); i += 1
+            else:
+                merged.append(pure[j]); j += 1
+        # a second load in the middle must not disturb anything either (iterators created before stay valid)
+        out.append(dict(c, calls=[first] + merged, id="perm-%d-%d" % (seed, len(out)),
+                        desc=dict(area="perm", base=c["id"], seed=seed)))
+    return out
